@@ -18,7 +18,7 @@ def main():
     demos = glob.glob(os.path.join(out, f"demo{n}_test.go")) or glob.glob(os.path.join(out, f"demo{n}*"))
     demo = demos[0]
     head = open(demo).read(3000)
-    m = re.search(r"[Pp]lace this file in:?\s*([A-Za-z0-9_./-]+/)", head)
+    m = re.search(r"[Pp]lace this file in:?\s*([A-Za-z0-9_./-]+/)", head) or re.search(r"[Pp]lace this file at\s*([A-Za-z0-9_./-]+/)zz_", head)
     d = m.group(1)
     m = re.search(r"(go test [^\n]*)", head)
     cmd = m.group(1).strip()
